@@ -17,6 +17,7 @@ func runC07(c *Ctx) {
 	c.Clause("C07.5 decision predicates of the forget-below pruning and of the gap-reveal / gap-fill ACK triggers (isMissing, hasNewMissingPackets, DeleteBelow trim and whole-range deletion) have the frozen shapes")
 	c.Clause("C07.6 GetAckFrame decides alarm expiry on ackAlarm, the field GetAlarmTimeout reports")
 	c.Clause("C07.7 the connection's run-loop timer folds in the ACK alarm on every path that is not hard-blocked (an armed alarm that the timer ignores never fires)")
+	c.Clause("C07.9 every payload serialiser (stock appendPacketPayload, spec MarshalInitialPacketPayload) writes the ACK frame that was dequeued into the payload")
 	c.Clause("C07.8 whenever ranges are removed from the front of the received-packet history (DeleteBelow, pruning beyond MaxNumAckRanges) the duplicate threshold deletedBelow is raised on the same path: what was forgotten counts as potentially duplicate")
 	c.NotCovered("interval-list algebra (merge/insert/prune correctness), HighestMissingUpTo")
 	c.NotCovered("that ranges are disjoint and include the largest received, as a value-level fact")
@@ -29,6 +30,7 @@ func runC07(c *Ctx) {
 	c.rule("C07.6", func() { c07AlarmAgreement(c) })
 	c.rule("C07.7", func() { timerFold(c, "C07.7", false, true) })
 	c.rule("C07.8", func() { c07ForgettingRaisesThreshold(c) })
+	c.rule("C07.9", func() { c07DequeuedAckIsSerialised(c) })
 }
 
 func c07Ranges(c *Ctx) {
